@@ -395,7 +395,8 @@ class Contrast:
         variance_ = self.variance + other.variance
         dof_ = self.dof + other.dof
         return Contrast(effect=effect_, variance=variance_, dof=dof_,
-                        contrast_type=self.contrast_type)
+                        contrast_type=self.contrast_type, tiny=self.tiny,
+                        dofmax=self.dofmax)
 
     def __rmul__(self, scalar):
         """Multiplication of the contrast by a scalar"""
@@ -404,7 +405,8 @@ class Contrast:
         variance_ = self.variance * scalar ** 2
         dof_ = self.dof
         return Contrast(effect=effect_, variance=variance_, dof=dof_,
-                        contrast_type=self.contrast_type)
+                        contrast_type=self.contrast_type, tiny=self.tiny,
+                        dofmax=self.dofmax)
 
     __mul__ = __rmul__
 
